@@ -64,6 +64,9 @@ pub fn families(a: &Args, rng: &mut Rng) -> Vec<Fam> {
     for t in adjacent_range_family(&pool) {
         v.push(Fam { t, fam: "adjacent-ranges" });
     }
+    for t in many_classes_family() {
+        v.push(Fam { t, fam: "many-classes" });
+    }
     for (i, t) in complement_inside_family(&pool).into_iter().enumerate() {
         if a.thorough() || i % 2 == (a.seed as usize) % 2 || i < 40 {
             v.push(Fam { t, fam: "complement-inside" });
@@ -852,7 +855,15 @@ pub fn drive_c19(a: &Args) {
             distinct.sort();
             distinct.dedup();
             let mut tries = vec![];
-            let bounds: Vec<(&str, usize)> = vec![("0", 0), ("L-1", n.saturating_sub(1)), ("L", n), ("L+1", n + 1), ("max", usize::MAX)];
+            let mut bounds: Vec<(&str, usize)> = vec![("0", 0), ("L-1", n.saturating_sub(1)), ("L", n), ("L+1", n + 1), ("max", usize::MAX)];
+            // bounds around the powers of two where a narrower counter would wrap (every one of them is >= n)
+            if n < 60000 && n <= 300 {
+                let p16 = 1usize << 16;
+                let p32 = 1usize << 32;
+                bounds.extend([("big:2^16", p16), ("big:2^16+L-1", p16 + n - 1), ("big:2^32-1", p32 - 1), ("big:2^32", p32),
+                    ("big:2^32+1", p32 + 1), ("big:2^32+L-1", p32 + n - 1), ("big:2^32+L", p32 + n), ("big:3*2^32+2", 3 * p32 + 2),
+                    ("big:2^40", 1usize << 40), ("big:max-1", usize::MAX - 1)]);
+            }
             let capped = n > 5000; // bounds and state counts are only exercised on terms of moderate size
             for (name, b) in bounds {
                 if capped && name != "0" {
@@ -1060,6 +1071,40 @@ pub fn drive_c16(a: &Args) {
                         }
                     }
                 }
+            }
+        }
+    }
+    // singleton languages built in different ways (the term of a string is not canonical: "aab" is a.(a.b) or
+    // a^2.b): every pair denoting the same string, a sample of the others; plain, against the complement, both
+    // complemented, against a union
+    {
+        let pieces: Vec<T> = vec![
+            T::Chr(pool.a), T::Chr(pool.b), T::Str(vec![pool.a, pool.b]), T::Str(vec![pool.a, pool.a, pool.b]),
+            T::Pow(bx(&T::Chr(pool.a)), 2), T::Pow(bx(&T::Str(vec![pool.a, pool.b])), 2), T::Str(vec![pool.a, pool.b, pool.a, pool.b]),
+            T::Loop(bx(&T::Str(vec![pool.b, pool.a])), 2, Some(2)), T::Pow(bx(&T::Chr(pool.b)), 3), T::Str(vec![pool.a, pool.a]),
+            T::Cat2(bx(&T::Cat2(bx(&ca), bx(&ca))), bx(&cb)), T::Cat2(bx(&ca), bx(&T::Cat2(bx(&ca), bx(&cb)))),
+        ];
+        let mut lits: Vec<T> = pieces.clone();
+        for x in &pieces {
+            for y in &pieces {
+                lits.push(T::Cat2(bx(x), bx(y)));
+            }
+        }
+        let mut k = 0usize;
+        for x in &lits {
+            for y in &lits {
+                let same = literal_of(x).is_some() && literal_of(x) == literal_of(y);
+                k += 1;
+                if !same && k % 23 != (a.seed as usize) % 23 {
+                    continue;
+                }
+                if !same && !a.thorough() && k % 2 == 0 {
+                    continue;
+                }
+                pairs.push((x.clone(), T::Not(bx(y)), "singletons"));
+                pairs.push((x.clone(), y.clone(), "singletons"));
+                pairs.push((T::Not(bx(x)), T::Not(bx(y)), "singletons"));
+                pairs.push((x.clone(), T::Alt2(bx(y), bx(&T::Pow(bx(&T::Chr(pool.c)), 2))), "singletons"));
             }
         }
     }
